@@ -131,6 +131,16 @@ class Sh:
                "function g return integer is begin return 1; end; function g(a) return undefined is begin return a; end; print g() g(5);", "if true then print 1; elsif false then print 2; else print 3; end if;",
                "while false loop nop; end loop; print \"w\";", "do str(5); trace false; nop; put 1 \" \" 2; print;", "a = 5; if a > 3 then if a > 4 then print \"deep\"; end if; end if;", "return 5 + 1;", "return \"s\";", "return;",
                "t = tab(2, 1); t.put(0, 5), t.concat(6), print t.count();", "r = tup(1, \"a\"); r.set@1(5); print r@1;", "$x = 5; $x = $x + 1; print $x;", "print 1 /* comment */ + 2; // trailing\nprint 3; # hash\n"]
+        # every statement form as the head of a `,` chain (unparse must emit what follows), at top level, in a loop body and in a function
+        heads = ["cnt:integer", "nm:string", "tb:table", "a = 1", "let q = 2", "nop", "trace false", "do str(1)", 'put "p"', "t = tab(1, 1)", "t.concat(2)", 'print "h"']
+        tails = ['cnt = 40 + 2, print cnt', 'nm = "v", print nm', "a = 7, print a"]
+        for h in heads:
+            for tl in tails:
+                if h.split(":")[0].split(" ")[0] in ("t.concat(2)",) : pre = "t = tab(1, 1); "
+                else: pre = ""
+                cases.append(("cnt = 0; nm = \"\"; a = 0; %s%s, %s;" % (pre, h, tl), "|chain"))
+            cases.append(("cnt = 0; nm = \"\"; a = 0; t = tab(1, 1); for i in 1 to 2 loop %s, a = a + i, print a; end loop;" % h, "|chain"))
+            cases.append(("function fc(z) return integer is begin %s, z = z + 1, return z; end; print fc(1);" % h.replace("cnt:", "lc:").replace("nm:", "ln:").replace("tb:", "lt:"), "|chain"))
         for t in stm:
             cases.append((t, "|statement"))
         for i, (t, c) in enumerate(cases):
